@@ -227,6 +227,12 @@ def _expand(prg, caller, stmt: ast.stmt, call: ast.Call, target, how: str, count
             if isinstance(sub, (ast.FunctionDef, ast.AsyncFunctionDef, ast.Lambda)):
                 continue
         _mark_returns(s)
+    # a helper that is one expression (after local definitions): no block needed
+    plain = bool(body) and isinstance(body[-1], ast.Return) and body[-1].value is not None and all(
+        isinstance(s, (ast.Assign, ast.AnnAssign)) and isinstance(s.targets[0] if isinstance(s, ast.Assign) else s.target, ast.Name) for s in body[:-1]
+    )
+    if plain and not (how == "whole" and isinstance(stmt, (ast.Assign, ast.AnnAssign))):
+        return None  # the interpreter substitutes such calls where they stand (Interp._inline_expression_functions)
     prologue: list[ast.stmt] = []
     for name, arg in bind.items():
         tgt = rename.get(name, name)
@@ -271,6 +277,13 @@ def _expand(prg, caller, stmt: ast.stmt, call: ast.Call, target, how: str, count
         if len(rets) == 1 and body and rets[0] is body[-1] and isinstance(rets[0].value, ast.Name) and rets[0].value.id == result_target.id:
             body = body[:-1]  # T = helper(..) where the helper ends in `return T`: the body already leaves its result in T
             result_target = None
+    if plain:
+        # T = helper(args)  ->  p = arg ...; local = ...; T = <expression>
+        stmt.value = body[-1].value  # type: ignore[union-attr]
+        out = prologue + body[:-1] + [stmt]
+        for s in out:
+            ast.fix_missing_locations(s)
+        return out
     item = ast.withitem(context_expr=ast.Call(func=ast.Name(MARK, ast.Load()), args=[ast.Constant(target.qualname)], keywords=[]), optional_vars=result_target)
     block = ast.With(items=[item], body=prologue + body or [ast.Pass()], type_comment=None)
     ast.copy_location(block, stmt)
